@@ -38,13 +38,15 @@ func VerifNumberGroups(root *html.Node, pageURL *nurl.URL, wc stringutil.WordCou
 	return pnf.adjacentNumberGroups
 }
 
-// VerifTrimmedPageURL is the copy of the page URL FindPagination works with, and its
-// unescaped string form.
-func VerifTrimmedPageURL(pageURL *nurl.URL) (*nurl.URL, string) {
+// VerifTrimmedPageURL is the copy of the page URL FindPagination works with, and the two
+// string forms it compares page infos with (unescaped; escaped without user info).
+func VerifTrimmedPageURL(pageURL *nurl.URL) (*nurl.URL, string, string) {
 	url := *pageURL
 	url.Path = strings.TrimSuffix(url.Path, "/")
 	url.RawPath = url.Path
-	return &url, stringutil.UnescapedString(&url)
+	cleanURL := url
+	cleanURL.User = nil
+	return &url, stringutil.UnescapedString(&url), cleanURL.String()
 }
 
 // VerifLinkTrace is what the prev/next finder noted about one anchor.
